@@ -11,8 +11,14 @@ var typeOfError = reflect.TypeOf((*error)(nil)).Elem()
 var typeOfContext = reflect.TypeOf((*context.Context)(nil)).Elem()
 
 // methodArgTypes returns the arg types and whether all the types are valid
-// (exported or builtin).
+// (exported or builtin) and the method has a shape that can be called: not
+// variadic, a context only as first parameter.
 func methodArgTypes(methodType reflect.Type) (argTypes []reflect.Type, hasCtx bool, ok bool) {
+	if methodType.IsVariadic() {
+		// A call passes its arguments one by one, there is no way to fill
+		// a variadic parameter from positional params.
+		return nil, false, false
+	}
 	argNum := methodType.NumIn()
 	argTypes = make([]reflect.Type, 0, argNum-1)
 	argPos := 1 // Skip receiver
@@ -22,6 +28,10 @@ func methodArgTypes(methodType reflect.Type) (argTypes []reflect.Type, hasCtx bo
 			return nil, hasCtx, false
 		}
 		if argType == typeOfContext {
+			if argPos != 1 {
+				// A call passes the context first.
+				return nil, hasCtx, false
+			}
 			hasCtx = true
 			continue
 		}
